@@ -55,7 +55,8 @@ type Hub struct {
 	// list of currently known/reported mDNS entries
 	knownMdnsEntries []*api.MdnsEntry
 
-	hasStarted bool
+	hasStarted  bool
+	hasShutdown bool
 
 	// SKIs for which the application needs to be notified about the pairing detail
 	pairingDetailUpdates       []string
@@ -113,6 +114,11 @@ func (h *Hub) Start() {
 
 // close all connections
 func (h *Hub) Shutdown() {
+	// no connection may be initiated from now on
+	h.muxStarted.Lock()
+	h.hasShutdown = true
+	h.muxStarted.Unlock()
+
 	h.mdns.Shutdown()
 	for _, c := range h.connections {
 		c.CloseConnection(false, 0, "")
@@ -159,6 +165,10 @@ func (h *Hub) numberPairedServices() int {
 
 // startup mDNS if a paired service is not connected
 func (h *Hub) checkAutoReannounce() {
+	if h.checkHasShutdown() {
+		return
+	}
+
 	countPairedServices := h.numberPairedServices()
 	h.muxCon.Lock()
 	countConnections := len(h.connections)
